@@ -145,6 +145,7 @@ type vfWriteRec struct {
 	RelType   byte
 	RelVal    uint32
 	DCEP      bool
+	NoOrder   bool // written by another goroutine than the run's writer: position relative to the others is undefined
 }
 
 type vfReadRec struct {
@@ -484,7 +485,7 @@ func (w *vfWork) writer(run *vfStreamRun) {
 			RelType: relT, RelVal: relV, DCEP: dcep,
 		}
 		ev := s.apiCall(side, "write", run.cfg.SID)
-		ev.Idx, ev.PPI, ev.Hash = i, ppi, rec.Hash
+		ev.Idx, ev.PPI, ev.Hash, ev.N = i, ppi, rec.Hash, size
 		rec.CallT, rec.CallSeq = ev.CallT, ev.CallSeq
 		n, err := st.WriteSCTP(msg, PayloadProtocolIdentifier(ppi))
 		s.apiRet(ev, n, err)
@@ -832,6 +833,9 @@ func vfCheckDelivery(res *vfRes, prop string, run *vfStreamRun, final bool) vfDe
 		delivered[idx]++
 		st.Delivered++
 		wr := writes[idx]
+		if wr.NoOrder {
+			continue
+		}
 		// DCEP messages are always ordered+reliable relative to each other
 		if wr.DCEP {
 			if idx < lastDCEPIdx {
@@ -847,8 +851,8 @@ func vfCheckDelivery(res *vfRes, prop string, run *vfStreamRun, final bool) vfDe
 			lastOrderedIdx = idx
 		}
 		if reliable && !run.cfg.Unordered && !run.cfg.Mix {
-			// skip rejected writes
-			for pos < len(writes) && !writes[pos].Accepted {
+			// skip rejected writes and writes whose position is undefined
+			for pos < len(writes) && (!writes[pos].Accepted || writes[pos].NoOrder) {
 				pos++
 			}
 			if idx != pos {
